@@ -258,6 +258,17 @@ fn int_data<T: IntVal>(len: usize, rng: &mut Rng) -> Vec<T> {
 
 /// non-empty tokens of printable ASCII without whitespace
 fn string_data(len: usize, rng: &mut Rng) -> Vec<String> {
+    let mut v = string_data_short(len, rng);
+    // now and then one element (not the first) is longer than the writer's and the reader's buffer
+    if len >= 2 && rng.chance(1, 25) {
+        let at = 1 + rng.usize_below(len - 1);
+        let n = rng.range_usize(65_530, 70_000);
+        v[at] = (0..n).map(|i| (0x21 + ((i * 7 + at) % 94) as u8) as char).collect();
+    }
+    v
+}
+
+fn string_data_short(len: usize, rng: &mut Rng) -> Vec<String> {
     const FIXED: &[&str] = &["-", "0", "-5", "[", ",", "\"q\"", "a\\b", "~", "!", "007"];
     (0..len)
         .map(|j| match rng.below(4) {
@@ -270,7 +281,7 @@ fn string_data(len: usize, rng: &mut Rng) -> Vec<String> {
                 (0..n)
                     .map(|_| {
                         if rng.chance(1, 12) {
-                            *rng.pick(&[0x0bu8, 0x01, 0x08, 0x0e, 0x1b, 0x1f, 0x7f]) as char
+                            *rng.pick(&[0x0bu8, 0x01, 0x08, 0x0e, 0x1b, 0x1f, 0x7f, 0x00]) as char
                         } else {
                             (0x21 + rng.below(0x7e - 0x21 + 1) as u8) as char
                         }
